@@ -134,9 +134,17 @@ def run_online_multi(driver, roles, nsteps, hook=None, tid=0, src="random", pair
 
 
 def run_fixed(backend, default, rules, ops, hook=None, tid=0, src="fixed", folder=None):
-    steps = impl.run_history(backend, default, rules, ops,
-                             hook=(lambda ix, i, op, res: hook(ix, None, i, op, res)) if hook else None,
-                             folder=folder)
+    try:
+        steps = impl.run_history(backend, default, rules, ops,
+                                 hook=(lambda ix, i, op, res: hook(ix, None, i, op, res)) if hook else None,
+                                 folder=folder)
+    except impl.MachineryError:
+        raise
+    except Exception as e:      # constructor failure
+        if not isinstance(e, impl.RequestTimeout) and "Index" not in repr(e.__traceback__.tb_next):
+            pass
+        return {"id": tid, "backend": backend, "def": default, "rules": list(rules), "steps": [],
+                "abort": {"step": 1, "err": "init:" + impl.exc_name(e), "op": "Init"}, "src": src, "ops": list(ops)}
     tsteps, abort = concrete_steps_to_trace(steps)
     return {"id": tid, "backend": backend, "def": default, "rules": list(rules),
             "steps": tsteps, "abort": abort, "src": src, "ops": list(ops)}
